@@ -124,6 +124,11 @@ def libLine : List String → Option String
         | some r => "ok " ++ toHex r
         | none => "err"
     | _, _, _, _ => none
+  | ["cosin", _, size, ts, root, ha, sa, sig, lid] =>
+    match some 0, parseNat? size, parseNat? ts, fromHex root, parseNat? ha, parseNat? sa, fromHex sig, fromHex lid with
+    | some (_ : Nat), some size, some ts, some root, some ha, some sa, some sig, some lid =>
+      some (toHex (cosigInput size ts root ha sa sig lid))
+    | _, _, _, _, _, _, _, _ => none
   | "cons" :: m :: n :: r1 :: r2 :: k :: rest =>
     match parseNat? m, parseNat? n, fromHex r1, fromHex r2, parseNat? k with
     | some m, some n, some r1, some r2, some k => (parseHexList k rest).map fun (p, _) =>
